@@ -1,6 +1,7 @@
 package main
 
 import (
+	"encoding/json"
 	"fmt"
 	"go/ast"
 	"go/token"
@@ -112,6 +113,8 @@ type lockCtx struct {
 	guards    map[string]guardSpec // field key -> guard
 	helpers   map[string][]heldE   // function key -> required entry locks
 	inlined   map[*ast.FuncLit]bool
+	curFn     string
+	exempted  []string
 }
 
 type guardSpec struct {
@@ -390,6 +393,7 @@ func funcKey(fn *types.Func) string {
 }
 
 func (c *lockCtx) buildFn(name string, body *ast.BlockStmt, p token.Pos, entry []heldE) *lkFn {
+	c.curFn = name
 	g := cfg.New(body, func(call *ast.CallExpr) bool { return !isPanicCall(c.info, call) })
 	// live blocks, renumbered
 	idx := map[*cfg.Block]int{}
@@ -582,10 +586,15 @@ func lockCFG(e *emitter, ns string) {
 			}
 		}
 	}
+	if *report != "" {
+		writeReport(ctx, fns)
+	}
 	e.f("import Iscp.Model.Lock\nnamespace Iscp.Gen.%s\nopen Iscp.Lock\n\n", ns)
 	e.f("/-- lock tokens -/\ndef lockNames : List String := [%s]\n", joinQuoted(ctx.lockNames))
 	e.f("/-- guarded location tokens -/\ndef locNames : List String := [%s]\n\n", joinQuoted(ctx.locNames))
 	e.f("/-- number of Lock/RLock/Unlock/RUnlock/Wait call sites abstracted into the programs below -/\ndef lockSites : Nat := %d\n\n", totalSites)
+	sort.Strings(ctx.exempted)
+	e.f("/-- access sites exempted because they are ordered by happens-before, not by a lock (justified one by one in go/extract/guards.go) -/\ndef exemptedSites : List String := [%s]\n\n", joinQuoted(ctx.exempted))
 	var names []string
 	for k, fn := range fns {
 		id := fmt.Sprintf("fn_%d", k)
@@ -659,4 +668,59 @@ func joinQuoted(l []string) string {
 		q[i] = leanStr(s)
 	}
 	return strings.Join(q, ", ")
+}
+
+// writeReport lists every abstracted site with the lockset the extractor's own dataflow computed there (diagnostics
+// for humans and for the failing-input search; the Lean checker, not this report, is the judge).
+func writeReport(c *lockCtx, fns []*lkFn) {
+	type site struct {
+		Fn, Pos, Kind, Text, Loc, Need string
+		Write                          bool
+		Held                           []string
+		OK                             bool
+	}
+	var sites []site
+	for _, fn := range fns {
+		for bi, b := range fn.blocks {
+			s := fn.cert[bi]
+			for _, o := range b.ops {
+				held := []string{}
+				for _, h := range s.held {
+					m := "w"
+					if h.mode == modeR {
+						m = "r"
+					}
+					held = append(held, c.lockNames[h.lock]+":"+m)
+				}
+				st := site{Fn: fn.name, Pos: o.pos, Kind: o.kind, Text: o.text, Held: held, OK: true}
+				switch o.kind {
+				case "acc":
+					st.Loc, st.Write, st.Need = c.locNames[o.loc], o.write, c.lockNames[o.lock]
+					st.OK = false
+					for _, h := range s.held {
+						if h.lock == o.lock && (!o.write || h.mode == modeW) {
+							st.OK = true
+						}
+					}
+				case "call":
+					for _, r := range o.req {
+						ok := false
+						for _, h := range s.held {
+							if h.lock == r.lock && (r.mode == modeR || h.mode == modeW) {
+								ok = true
+							}
+						}
+						if !ok {
+							st.OK = false
+							st.Need = c.lockNames[r.lock]
+						}
+					}
+				}
+				sites = append(sites, st)
+				s = execOp(s, o)
+			}
+		}
+	}
+	b, _ := json.MarshalIndent(sites, "", " ")
+	os.WriteFile(*report, b, 0o644)
 }
